@@ -6,13 +6,14 @@
 //! coq/theories/Reactive/AsyncRun.v.
 use crate::exec;
 use futures::channel::oneshot;
+use leptos_server::{ArcOnceResource, ArcResource, OnceResource, Resource};
 use reactive_graph::{
-    computed::{ArcAsyncDerived, ArcMemo, AsyncDerived},
+    computed::{suspense::SuspenseContext, ArcAsyncDerived, ArcMemo, AsyncDerived},
     effect::Effect,
     graph::{Source, ToAnySubscriber},
-    owner::Owner,
+    owner::{provide_context, Owner},
     signal::ArcRwSignal,
-    traits::{Get, GetUntracked, Notify, Set, Update, WithUntracked, Write},
+    traits::{Get, GetUntracked, Notify, Set, Track, Update, WithUntracked, Write},
 };
 use std::{
     cell::RefCell,
@@ -50,6 +51,8 @@ fn mk_fut(r: i64) -> impl Future<Output = i64> + Send + 'static {
 enum Node {
     Arc(ArcAsyncDerived<i64>),
     Arena(AsyncDerived<i64>),
+    Once(ArcOnceResource<i64>),
+    OnceArena(OnceResource<i64>),
 }
 
 impl Node {
@@ -57,30 +60,38 @@ impl Node {
         match self {
             Node::Arc(n) => n.get_untracked(),
             Node::Arena(n) => n.get_untracked(),
+            Node::Once(n) => n.get_untracked(),
+            Node::OnceArena(n) => n.get_untracked(),
         }
     }
     fn get(&self) -> Option<i64> {
         match self {
             Node::Arc(n) => n.get(),
             Node::Arena(n) => n.get(),
+            Node::Once(n) => n.get(),
+            Node::OnceArena(n) => n.get(),
         }
     }
     fn set(&self, v: i64) {
         match self {
             Node::Arc(n) => *n.write() = Some(v),
             Node::Arena(n) => *n.write() = Some(v),
+            _ => {}
         }
     }
     fn notify(&self) {
         match self {
             Node::Arc(n) => n.notify(),
             Node::Arena(n) => n.notify(),
+            _ => {}
         }
     }
     fn awaiter(&self) -> Pin<Box<dyn Future<Output = i64>>> {
         match self {
             Node::Arc(n) => Box::pin(n.clone().into_future()),
             Node::Arena(n) => Box::pin(n.into_future()),
+            Node::Once(n) => Box::pin(n.clone().into_future()),
+            Node::OnceArena(n) => Box::pin(n.into_future()),
         }
     }
     fn loading(&self) -> bool {
@@ -88,6 +99,8 @@ impl Node {
         let mut f = match self {
             Node::Arc(n) => n.ready(),
             Node::Arena(n) => n.ready(),
+            Node::Once(n) => n.ready(),
+            Node::OnceArena(n) => n.ready(),
         };
         let w = Waker::from(Arc::new(Count(AtomicUsize::new(0))));
         let mut cx = Context::from_waker(&w);
@@ -107,8 +120,11 @@ impl Wake for Count {
 
 struct Awaiter {
     fut: Option<Pin<Box<dyn Future<Output = i64>>>>,
+    /// the waker handed to the latest poll (a fresh one every time)
     wakes: Arc<Count>,
     result: Option<i64>,
+    /// created and polled under the owner that provides the SuspenseContext
+    sus: bool,
 }
 
 fn opt(v: Option<i64>) -> Sexp {
@@ -139,13 +155,54 @@ fn run_in(c: &Sexp) -> Sexp {
     let sigs: Vec<ArcRwSignal<i64>> = (0..3).map(|_| ArcRwSignal::new(0)).collect();
     let refetch = ArcRwSignal::new(0i64);
     let (s0, s1) = (sigs[0].clone(), sigs[1].clone());
+    enum Res {
+        Arc(ArcResource<i64>),
+        Arena(Resource<i64>),
+    }
+    let mut resource: Option<Res> = None;
+    // the "Suspense boundary": an owner that provides a SuspenseContext
+    let boundary = Owner::new();
+    let suspense = SuspenseContext {
+        tasks: ArcRwSignal::new(Default::default()),
+    };
+    boundary.with(|| provide_context(suspense.clone()));
     let node = match shape {
         0 => {
+            let rf = refetch.clone();
             let f = move || mk_fut(fetch(s0.get(), s1.get()));
             if wrap == 1 {
                 Node::Arena(AsyncDerived::new(f))
+            } else if wrap == 2 {
+                // what ArcLocalResource::new builds (minus the tick it awaits first)
+                Node::Arc(ArcAsyncDerived::new_unsync(move || {
+                    rf.track();
+                    f()
+                }))
             } else {
                 Node::Arc(ArcAsyncDerived::new(f))
+            }
+        }
+        4 => {
+            // the real resource constructors of leptos_server
+            let src = move || s0.get().div_euclid(2);
+            let fetcher = move |x: i64| mk_fut(fetch(x, 0));
+            if wrap == 1 {
+                let r = Resource::new(src, fetcher);
+                resource = Some(Res::Arena(r));
+                Node::Arena(*std::ops::Deref::deref(&r))
+            } else {
+                let r = ArcResource::new(src, fetcher);
+                let n = Node::Arc(std::ops::Deref::deref(&r).clone());
+                resource = Some(Res::Arc(r));
+                n
+            }
+        }
+        5 => {
+            let fut = mk_fut(fetch(7, 7));
+            if wrap == 1 {
+                Node::OnceArena(OnceResource::new(fut))
+            } else {
+                Node::Once(ArcOnceResource::new(fut))
             }
         }
         1 => {
@@ -220,13 +277,23 @@ fn run_in(c: &Sexp) -> Sexp {
             Lst(aw),
             Lst(DEPLOG.with(|l| std::mem::take(&mut *l.borrow_mut()))),
             Num(FUTS.with(|f| f.borrow().len()) as i64),
+            Num(suspense.tasks.with_untracked(|t| t.len()) as i64),
         ])
     };
     let poll_awaiter = |a: &mut Awaiter| {
-        if let Some(f) = a.fut.as_mut() {
+        if a.fut.is_some() {
+            // a fresh waker for every poll: only the latest one matters
+            a.wakes = Arc::new(Count(AtomicUsize::new(0)));
             let w = Waker::from(a.wakes.clone());
             let mut cx = Context::from_waker(&w);
-            if let Poll::Ready(v) = f.as_mut().poll(&mut cx) {
+            let sus = a.sus;
+            let f = a.fut.as_mut().unwrap();
+            let r = if sus {
+                boundary.with(|| f.as_mut().poll(&mut cx))
+            } else {
+                f.as_mut().poll(&mut cx)
+            };
+            if let Poll::Ready(v) = r {
                 a.result = Some(v);
                 a.fut = None;
             }
@@ -247,7 +314,11 @@ fn run_in(c: &Sexp) -> Sexp {
                     s.set(ev.at(2).num());
                 }
             }
-            1 => refetch.update(|n| *n += 1),
+            1 => match &resource {
+                Some(Res::Arc(r)) => r.refetch(),
+                Some(Res::Arena(r)) => r.refetch(),
+                None => refetch.update(|n| *n += 1),
+            },
             2 => node.set(a),
             3 => node.notify(),
             4 => {
@@ -263,11 +334,20 @@ fn run_in(c: &Sexp) -> Sexp {
             6 => {
                 exec::run_all(&ev.at(1).nums(), 100_000);
             }
-            7 => awaiters.push(Awaiter {
-                fut: Some(node.awaiter()),
-                wakes: Arc::new(Count(AtomicUsize::new(0))),
-                result: None,
-            }),
+            7 => {
+                let sus = a != 0;
+                let fut = if sus {
+                    boundary.with(|| node.awaiter())
+                } else {
+                    node.awaiter()
+                };
+                awaiters.push(Awaiter {
+                    fut: Some(fut),
+                    wakes: Arc::new(Count(AtomicUsize::new(0))),
+                    result: None,
+                    sus,
+                })
+            }
             8 => {
                 if let Some(aw) = awaiters.get_mut(a as usize) {
                     poll_awaiter(aw);
